@@ -394,7 +394,7 @@ def hex_from_temp(value: bool | float | None) -> HexStr4:
         raise TypeError(f"Invalid temp: {value} is not a float")
     # if not -(2**7) <= value < 2**7:  # TODO: tighten range
     #     raise ValueError(f"Invalid temp: {value} is out of range")
-    temp = int(value * 100)
+    temp = int(round(value * 100))
     return f"{temp if temp >= 0 else temp + 2 ** 16:04X}"
 
 
